@@ -2,7 +2,12 @@
 //! unlink, mmap, munmap made by std / memmap2 / the library inside this process are reported
 //! to `pdbv::iotrack` before the real function runs (reached through dlsym(RTLD_NEXT)).
 
-use libc::{c_char, c_int, c_void, off_t, size_t};
+use libc::{c_char, c_int, c_void, off_t, size_t, ssize_t};
+
+unsafe fn eio() -> c_int {
+	*libc::__errno_location() = libc::EIO;
+	-1
+}
 use std::sync::atomic::{AtomicUsize, Ordering};
 
 macro_rules! real {
@@ -19,6 +24,9 @@ macro_rules! real {
 
 #[no_mangle]
 pub unsafe extern "C" fn fdatasync(fd: c_int) -> c_int {
+	if pdbv::iotrack::eio_fd(fd) {
+		return eio()
+	}
 	let r = real!("fdatasync", unsafe extern "C" fn(c_int) -> c_int)(fd);
 	if r == 0 {
 		pdbv::iotrack::on_fsync(fd);
@@ -28,6 +36,9 @@ pub unsafe extern "C" fn fdatasync(fd: c_int) -> c_int {
 
 #[no_mangle]
 pub unsafe extern "C" fn fsync(fd: c_int) -> c_int {
+	if pdbv::iotrack::eio_fd(fd) {
+		return eio()
+	}
 	let r = real!("fsync", unsafe extern "C" fn(c_int) -> c_int)(fd);
 	if r == 0 {
 		pdbv::iotrack::on_fsync(fd);
@@ -37,6 +48,9 @@ pub unsafe extern "C" fn fsync(fd: c_int) -> c_int {
 
 #[no_mangle]
 pub unsafe extern "C" fn msync(addr: *mut c_void, len: size_t, flags: c_int) -> c_int {
+	if pdbv::iotrack::eio_addr(addr as usize) {
+		return eio()
+	}
 	if pdbv::iotrack::THREADED.load(Ordering::SeqCst) {
 		// real worker threads: what the call guarantees is the content at call time
 		pdbv::iotrack::on_msync(addr as usize, len);
@@ -55,12 +69,18 @@ pub unsafe extern "C" fn msync(addr: *mut c_void, len: size_t, flags: c_int) -> 
 
 #[no_mangle]
 pub unsafe extern "C" fn ftruncate(fd: c_int, len: off_t) -> c_int {
+	if pdbv::iotrack::eio_fd(fd) {
+		return eio()
+	}
 	pdbv::iotrack::on_ftruncate(fd, len);
 	real!("ftruncate", unsafe extern "C" fn(c_int, off_t) -> c_int)(fd, len)
 }
 
 #[no_mangle]
 pub unsafe extern "C" fn ftruncate64(fd: c_int, len: i64) -> c_int {
+	if pdbv::iotrack::eio_fd(fd) {
+		return eio()
+	}
 	pdbv::iotrack::on_ftruncate(fd, len);
 	real!("ftruncate64", unsafe extern "C" fn(c_int, i64) -> c_int)(fd, len)
 }
@@ -69,6 +89,9 @@ pub unsafe extern "C" fn ftruncate64(fd: c_int, len: i64) -> c_int {
 pub unsafe extern "C" fn unlink(path: *const c_char) -> c_int {
 	if !path.is_null() {
 		if let Ok(s) = std::ffi::CStr::from_ptr(path).to_str() {
+			if pdbv::iotrack::eio_path(std::path::Path::new(s)) {
+				return eio()
+			}
 			pdbv::iotrack::on_unlink(std::path::Path::new(s));
 		}
 	}
@@ -77,6 +100,10 @@ pub unsafe extern "C" fn unlink(path: *const c_char) -> c_int {
 
 #[no_mangle]
 pub unsafe extern "C" fn mmap(addr: *mut c_void, len: size_t, prot: c_int, flags: c_int, fd: c_int, off: off_t) -> *mut c_void {
+	if fd >= 0 && pdbv::iotrack::eio_fd(fd) {
+		eio();
+		return libc::MAP_FAILED
+	}
 	let r = real!("mmap", unsafe extern "C" fn(*mut c_void, size_t, c_int, c_int, c_int, off_t) -> *mut c_void)(addr, len, prot, flags, fd, off);
 	if r != libc::MAP_FAILED && fd >= 0 {
 		pdbv::iotrack::on_mmap(r as usize, len, fd, off);
@@ -86,6 +113,10 @@ pub unsafe extern "C" fn mmap(addr: *mut c_void, len: size_t, prot: c_int, flags
 
 #[no_mangle]
 pub unsafe extern "C" fn mmap64(addr: *mut c_void, len: size_t, prot: c_int, flags: c_int, fd: c_int, off: i64) -> *mut c_void {
+	if fd >= 0 && pdbv::iotrack::eio_fd(fd) {
+		eio();
+		return libc::MAP_FAILED
+	}
 	let r = real!("mmap64", unsafe extern "C" fn(*mut c_void, size_t, c_int, c_int, c_int, i64) -> *mut c_void)(addr, len, prot, flags, fd, off);
 	if r != libc::MAP_FAILED && fd >= 0 {
 		pdbv::iotrack::on_mmap(r as usize, len, fd, off);
@@ -97,6 +128,14 @@ pub unsafe extern "C" fn mmap64(addr: *mut c_void, len: size_t, prot: c_int, fla
 pub unsafe extern "C" fn munmap(addr: *mut c_void, len: size_t) -> c_int {
 	pdbv::iotrack::on_munmap(addr as usize);
 	real!("munmap", unsafe extern "C" fn(*mut c_void, size_t) -> c_int)(addr, len)
+}
+
+#[no_mangle]
+pub unsafe extern "C" fn write(fd: c_int, buf: *const c_void, count: size_t) -> ssize_t {
+	if pdbv::iotrack::eio_fd(fd) {
+		return eio() as ssize_t
+	}
+	real!("write", unsafe extern "C" fn(c_int, *const c_void, size_t) -> ssize_t)(fd, buf, count)
 }
 
 fn main() {
